@@ -138,7 +138,7 @@ def oracle(probes, ops, obs, res):
                 if not live.get(key):
                     found.append((idx, "C04:removed-without-added", "browser %d delivered Removed(%s, %s) for an instance that is not currently added" % (bid, type_, name)))
                 live[key] = False
-            if snap != o["S"] and not (made and _expired_only(snap, o["S"], CC.op_time(op) or 0)):
+            if snap != o["S"] and not (made and _expired_only(snap, o["S"], (CC.op_time(op) or 0) + (o.get("ticks") or 0))):
                 found.append((idx, "C04:callback-before-cache-update", "the cache seen inside the %s callback for %s differs from the cache after the op" % (ch, name)))
         if o["P"] is not None:
             for bid, types in active.items():
